@@ -29,6 +29,7 @@ ASSUMPTIONS = [
     "#covers < k, either accepted when #covers == k (the search cannot know)",
     "L2 anomalies (non-LIFO uncover, uncover not the inverse of cover) are events, not violations (DESIGN section 3)",
 ]
+QUICK_SCALE = 2.5  # quick-tier multiplier (idle 16-core timing: ~10 s at scale 1)
 STRATA = [
     ("random", 5000, 40000),
     ("planted", 3000, 26000),
